@@ -39,7 +39,7 @@ Record content_pack_at (f : list N) (base : N) (h : pack_header) (ch : cp_header
                 wf_cluster c /\ wf_sized_offset so /\
                 so_size so = lenN (ser_tail (cl_comp c) (cl_raw c) (cl_lens c)) /\
                 placed f (base + so_off so) (ser_tail (cl_comp c) (cl_raw c) (cl_lens c)) /\
-                cl_raw c <= base + so_off so /\
+                cl_raw c <= so_off so /\        (* the stored data lie inside the pack, before the tail *)
                 (cl_comp c = 0 -> subN (base + so_off so - cl_raw c) (cl_raw c) f = concat (cl_blobs c)) }.
 
 (* ---- fixed-width tables ---- *)
@@ -150,11 +150,13 @@ Proof.
     - unfold cl_lens. rewrite map_length. exact Wc3.
     - intros _. exact Rw. }
   rewrite PT. cbn [lift pbind run t_offs t_comp t_raw t_dsize].
+  replace (so_off so <? cl_raw c) with false by (symmetry; apply N.ltb_ge; exact Nu).
   rewrite Nat2N.id.
   assert (Lj : (j < length (cl_blobs c))%nat) by (apply nth_error_Some; congruence).
   replace (length (0%N :: ends (cl_lens c)) <=? S j)%nat with false.
   2:{ symmetry. apply Nat.leb_gt. cbn [length]. unfold ends, cl_lens. rewrite ends_from_length, map_length. lia. }
   destruct (nth_ends (cl_blobs c) j b Hb) as [O1 O2]. unfold cl_lens. rewrite O1, O2.
+  match goal with |- context [?a + ?b <? ?a] => replace (a + b <? a) with false by (symmetry; apply N.ltb_ge; lia) end.
   rewrite Hc. cbn [N.eqb]. cbn [run].
   set (pre := lenN (concat (firstn j (cl_blobs c)))).
   replace (pre + lenN b - pre) with (lenN b) by lia.
@@ -214,11 +216,13 @@ Proof.
     - unfold cl_lens. rewrite map_length. exact Wc3.
     - intros E. contradiction. }
   rewrite PT. cbn [lift pbind run t_offs t_comp t_raw t_dsize].
+  replace (so_off so <? cl_raw c) with false by (symmetry; apply N.ltb_ge; exact Nu).
   rewrite Nat2N.id.
   assert (Lj : (j < length (cl_blobs c))%nat) by (apply nth_error_Some; congruence).
   replace (length (0%N :: ends (cl_lens c)) <=? S j)%nat with false.
   2:{ symmetry. apply Nat.leb_gt. cbn [length]. unfold ends, cl_lens. rewrite ends_from_length, map_length. lia. }
   destruct (nth_ends (cl_blobs c) j b Hb) as [O1 O2]. unfold cl_lens. rewrite O1, O2.
+  match goal with |- context [?a + ?b <? ?a] => replace (a + b <? a) with false by (symmetry; apply N.ltb_ge; lia) end.
   replace (cl_comp c =? 0) with false by (symmetry; now apply N.eqb_neq). cbn [run].
   rewrite Rw. unfold cl_dsize, cl_lens. repeat f_equal. lia.
 Qed.
